@@ -47,18 +47,18 @@ META = {
 
 _ARG1 = re.compile(r'\(\s*\\?"?(\w+)')
 CLAUSES = ["SizeBound", "NoReplayInWindow", "AtMostOneConcurrent"]
-MODEL_INVS = CLAUSES + ["TypeOK", "LiveEntryKept"]
+MODEL_INVS = [f"Inv_{c}" for c in CLAUSES] + ["TypeOK", "LiveEntryKept", "Vacuity"]
 
 
 def _strset(xs) -> Raw:
     return Raw("{" + ", ".join(f'"{x}"' for x in xs) + "}")
 
 
-def _consts(nt, nn, cap, ttl, mc, mo, grain="lock", uselock=True, sym=False) -> dict:
+def _consts(nt, nn, caps, ttls, mc, mo, modes=("lock",), sym=False) -> dict:
     th = [f"t{i + 1}" for i in range(nt)]
     no = list("abc"[:nn])
     return {"Threads": ModelValues(*th) if sym else _strset(th), "Nonces": ModelValues(*no) if sym else _strset(no),
-            "Cap": cap, "Ttl": ttl, "MaxClock": mc, "MaxOps": mo, "Grain": grain, "UseLock": uselock}
+            "Caps": set(caps), "Ttls": set(ttls), "Modes": _strset(modes), "MaxClock": mc, "MaxOps": mo}
 
 
 # ---------------------------------------------------------------------------------------------- real world
@@ -88,12 +88,15 @@ class World:
         self.threads = threads
         self.probe = probe
         self.notes: list[str] = []
-        orig = rp.threading
-        rp.threading = self.sched.threading_shim()
+        self.executed: list[str] = []          # what was really executed, in order: "Tick" | thread name
+        orig = getattr(rp, "threading", None)
+        if orig is not None:
+            rp.threading = self.sched.threading_shim()
         try:
             self.cache = rp.NonceCache(ttl_seconds=ttl, capacity=cap, clock=self._clock)
         finally:
-            rp.threading = orig
+            if orig is not None:
+                rp.threading = orig
         self.shimmed = bool(self.sched.locks)
         self.lockname = self.sched.locks[0].name if self.sched.locks else None
         if probe:
@@ -127,11 +130,14 @@ class World:
                 self.ev(e="Read", t=t, n=x, now=int(self.sched.clock))
             self.ev(e="Done", t=t, n=x, res=bool(r), size=-1)
             self.cur.pop(t, None)
+            if self.probe and not self.prog[t]:
+                return                      # Level B: programs are fixed, no park point after the last one
             self.sched.yield_point("next")
 
     # -- control
     def tick(self) -> None:
         self.sched.clock += 1.0
+        self.executed.append("Tick")
         self.ev(e="Tick")
 
     def lock_held(self) -> bool:
@@ -139,6 +145,7 @@ class World:
 
     def step(self, t: str) -> str:
         n0 = len(self.events)
+        self.executed.append(t)
         lab = self.sched.step(t)
         size = None
         if not self.lock_held():
@@ -236,20 +243,21 @@ def replay_path(cap: int, ttl: int, threads: list[str], beh: list[dict]):
         drift = drift or {"what": "thread raised", "errors": errs}
     if w.notes and drift is None:
         drift = {"what": w.notes[0]}
-    return w.trace(), drift, n
+    return w.trace(), drift, w.executed
 
 
-def _edge_key(cap: int):
+def _edge_key():
     def key(src, label, dst):
+        cap = src["cap"]
         act = label.split("(")[0]
         if act == "Tick":
             c1 = src["clock"] + 1
-            return ("Tick", any(p != "idle" for p in src["pc"].values()), any(e["exp"] == c1 for e in src["entries"]))
+            return ("Tick", cap, src["ttl"], any(p != "idle" for p in src["pc"].values()), any(e["exp"] == c1 for e in src["entries"]))
         t = _ARG1.search(label).group(1)
         if act == "ReadClock":
             x = dst["nonce"][t]
             oth = [u for u, p in src["pc"].items() if u != t and p != "idle"]
-            return ("Read", bool(oth), any(src["nonce"][u] == x for u in oth), any(e["n"] == x for e in src["entries"]),
+            return ("Read", cap, bool(oth), any(src["nonce"][u] == x for u in oth), any(e["n"] == x for e in src["entries"]),
                     src["ops"][t], x in src["accepted"])
         x, nw = src["nonce"][t], src["now"][t]
         ent = list(src["entries"])
@@ -259,7 +267,7 @@ def _edge_key(cap: int):
         rest = ent[k:]
         present = any(e["n"] == x for e in rest)
         conc = any(u != t and src["pc"][u] != "idle" and src["nonce"][u] == x for u in src["pc"])
-        return ("Locked", min(k, 2), present, (not present) and len(rest) >= cap, nw < src["clock"],
+        return ("Locked", cap, src["ttl"], min(k, 2), present, (not present) and len(rest) >= cap, nw < src["clock"],
                 any(e["exp"] <= src["clock"] for e in rest), conc, x in src["accepted"])
     return key
 
@@ -301,7 +309,7 @@ def run_real_schedule(scn: dict, prefix: list[str]):
             if ch not in opts:
                 stuck = {"what": "schedule prefix not reproducible", "at": k, "want": ch, "options": opts}
                 break
-            decisions.append((opts, ch, preempting))
+            n0 = len(w.events)
             k += 1
             if ch == "Tick":
                 w.tick()
@@ -309,6 +317,7 @@ def run_real_schedule(scn: dict, prefix: list[str]):
             else:
                 w.step(ch)
                 last = ch
+            decisions.append((opts, ch, preempting, len(w.events) > n0))
         w.close()
     except (SchedTimeout, Blocked) as e:
         stuck = {"what": f"scheduler: {type(e).__name__}: {e}"}
@@ -319,11 +328,56 @@ def run_real_schedule(scn: dict, prefix: list[str]):
 
 
 # ---------------------------------------------------------------------------------------------- driver
+JUDGE_CONSTS = {"Threads": _strset(["t0", "t1", "t2", "t3"]), "Nonces": _strset("abc"), "Caps": {1, 2, 3, 4},
+                "Ttls": {1, 2, 3}, "Modes": _strset(["lock"]), "MaxClock": 99, "MaxOps": 99}
+
+
+def replay_schedule(cap: int, ttl: int, nthreads: int, executed: list[str], trace_ev: list[dict]) -> list[dict]:
+    """Re-execute a Level-A run from what was really executed ("Tick" | thread) and the nonces it presented."""
+    threads = [f"t{i + 1}" for i in range(nthreads)]
+    w = World(cap, ttl, threads)
+    try:
+        for e in trace_ev:
+            if e["e"] == "Read" and e["t"] in w.prog:
+                w.prog[e["t"]].append(e["n"])
+        for x in executed:
+            if x == "Tick":
+                w.tick()
+            elif w.sched.enabled(x):
+                w.step(x)
+        w.finish()
+    finally:
+        w.close()
+    return w.trace()
+
+
+def _replay(ctx: Ctx, rec: dict, wd) -> None:
+    """./check C23 --replay FILE : re-execute the recorded schedule on the real code and let TLC judge it again."""
+    d, sig = rec["detail"], rec["sig"]
+    tr = d["trace"]
+    if sig.get("level") == "B" and d.get("scenario"):
+        scn = dict(d["scenario"], pb=None)
+        scn["prefill"] = [tuple(x) for x in scn["prefill"]]
+        out, _ = run_real_schedule(scn, d["schedule"])
+        ev = out["trace"]
+    else:
+        ev = replay_schedule(tr["cap"], tr["ttl"], sig["threads"], d["executed"], tr["ev"])
+    ctx.case(("replay", _tkey(ev)), sample={"replayed_trace": ev})
+    verdicts, bad, inv_hits = judge_traces(ctx, wd, "NonceCacheTrace", [{"cap": tr["cap"], "ttl": tr["ttl"], "ev": ev}],
+                                           JUDGE_CONSTS, invariants=[f"Inv_{c}" for c in CLAUSES], name="replay")
+    ctx.extra["replay_same_trace"] = (ev == tr["ev"])
+    for clause in bad.get(0, []):
+        ctx.violation(clause, dict(sig, clause=clause), {"trace": {"cap": tr["cap"], "ttl": tr["ttl"], "ev": ev},
+                                                         "schedule": d["schedule"], "scenario": d.get("scenario")})
+
+
 def run(ctx: Ctx) -> None:
     quick = ctx.quick
     wd = ctx.wd.stage("conc")
-    sany(wd, "NonceCache")
-    sany(wd, "NonceCacheTrace")
+    sany(wd, "NonceCacheTrace")          # parses NonceCache too
+    if getattr(ctx, "replay_record", None):
+        _replay(ctx, ctx.replay_record, wd)
+        return
     ctx.rule = ("case = one execution of the real NonceCache under one forced schedule (a TLC path of the lock-grain "
                 "graph, or one real schedule of a Level-B scenario); non-trivial = distinct (capacity, ttl, event "
                 "trace) executed; clauses are judged by TLC on the recorded trace")
@@ -332,176 +386,196 @@ def run(ctx: Ctx) -> None:
                "overlapping the interval from x's acceptance to the replay's return",
                "a presentation is inside the window when it returns while the global clock < accNow + ttl",
                "bounds: 2-3 threads, <=2 presentations per thread, alphabet 3, capacity 1..4, <=3 ticks")
-
-    # ---------------- 1. model checking
+    T = {}
     t0 = time.time()
-    jobs, names, expect = [], [], []
 
-    def mc(name, consts, invs, sym=True, exp_violation=None):
-        cfg = render_cfg(constants=consts, invariants=invs, symmetry="Symmetry" if sym else None)
-        jobs.append(lambda: run_tlc(wd, "NonceCache", cfg, workers=2 if quick else 4, cfg_name=f"NC_{name}.cfg",
-                                    timeout=1500))
-        names.append(name)
-        expect.append(exp_violation)
+    # ---------------- 1. model checking + 2a. graph dumps (all TLC jobs side by side)
+    W = 2 if quick else 4
+    mcs = []      # (name, consts, needs_vacuity)
+    if quick:
+        mcs.append(("mc-2thr-2ops-caps1-4", _consts(2, 3, (1, 2, 3, 4), (2,), 3, 2, sym=True), False))
+        mcs.append(("mc-3thr-1op-caps1-4", _consts(3, 3, (1, 2, 3, 4), (1, 2), 2, 1, sym=True), False))
+        mcs.append(("mc-fine+nolock", _consts(2, 2, (1, 2), (2,), 2, 1, modes=("fine", "nolock"), sym=True), True))
+        # (nthreads, nnonces, caps, ttls, maxclock, maxops, mode)   mode: "all" | "cover"
+        dumps = [(2, 2, (1,), (2,), 2, 1, "all"), (2, 2, (1, 2), (1,), 2, 2, "cover"), (3, 2, (1,), (2,), 2, 1, "cover")]
+        n_random = 40
+    else:
+        mcs.append(("mc-2thr-2ops-caps1-4-ttl1-3", _consts(2, 3, (1, 2, 3, 4), (1, 2, 3), 3, 2, sym=True), False))
+        mcs.append(("mc-3thr-2ops-caps1-3", _consts(3, 3, (1, 2, 3), (2,), 3, 2, sym=True), False))
+        mcs.append(("mc-fine+nolock-2thr", _consts(2, 3, (1, 2), (2,), 3, 2, modes=("fine", "nolock"), sym=True), True))
+        mcs.append(("mc-fine-3thr", _consts(3, 2, (1, 2), (2,), 2, 1, modes=("fine",), sym=True), False))
+        dumps = [(2, 2, (1, 2), (2,), 2, 1, "all"), (3, 1, (1,), (1,), 1, 1, "all"), (3, 1, (1,), (2,), 2, 1, "all"),
+                 (2, 2, (1, 2, 3), (1, 2), 2, 2, "cover"), (3, 2, (1, 2), (2,), 2, 1, "cover"),
+                 (2, 3, (1, 2, 3, 4), (2,), 2, 2, "random")]
+        n_random = 400
 
-    for cap in (1, 2, 3, 4):
-        mc(f"mc-2thr-cap{cap}", _consts(2, 3, cap, 2, 3, 2, sym=True), MODEL_INVS)
-    for cap in ((1, 2) if quick else (1, 2, 3, 4)):
-        mc(f"mc-3thr-1op-cap{cap}", _consts(3, 3, cap, 2, 3, 1, sym=True), MODEL_INVS)
-    if not quick:
-        for cap in (1, 2, 3, 4):
-            mc(f"mc-3thr-2op-cap{cap}", _consts(3, 3, cap, 2, 3, 2, sym=True), MODEL_INVS)
-        mc("mc-2thr-ttl1-cap2", _consts(2, 3, 2, 1, 3, 2, sym=True), MODEL_INVS)
-        mc("mc-2thr-ttl3-cap2", _consts(2, 3, 2, 3, 3, 2, sym=True), MODEL_INVS)
-    mc("mc-fine-lock", _consts(2, 2 if quick else 3, 1 if quick else 2, 2, 2 if quick else 3, 2, grain="fine", sym=True),
-       MODEL_INVS)
-    for cl in CLAUSES:        # vacuity guard: without the lock each clause must fail
-        mc(f"mc-fine-nolock-{cl}", _consts(2, 2, 1, 2, 1, 1, grain="fine", uselock=False, sym=True), [cl],
-           exp_violation=cl)
-    results = parallel_tlc(jobs, max_par=4)
-    for nm, r, ex in zip(names, results, expect):
+    def mc_job(name, consts):
+        cfg = render_cfg(constants=consts, invariants=MODEL_INVS, symmetry="Symmetry")
+        return lambda: run_tlc(wd, "NonceCache", cfg, workers=W, cfg_name=f"NC_{name}.cfg", timeout=2400)
+
+    def dump_job(k, d):
+        nt, nn, caps, ttls, mc_, mo, _ = d
+        cfg = render_cfg(constants=_consts(nt, nn, caps, ttls, mc_, mo), invariants=[f"Inv_{c}" for c in CLAUSES])
+        return lambda: dump_graph(wd, "NonceCache", cfg, workers=W, name=f"g{k}", timeout=2400)
+
+    jobs = [mc_job(n, c) for n, c, _ in mcs] + [dump_job(k, d) for k, d in enumerate(dumps)]
+    results = parallel_tlc(jobs, max_par=6 if quick else 5)
+    for (nm, _, vac), r in zip(mcs, results):
         ctx.add_tlc(nm, r)
-        if ex is None:
-            require_ok(r, f"NonceCache {nm}")
-        elif r.violated != ex:
-            raise MachineryError(f"vacuity guard {nm}: the lock-free design should violate {ex}, TLC says "
-                                 f"violated={r.violated} error={r.error}")
-    ctx.extra["mc_wall_s"] = round(time.time() - t0, 1)
+        require_ok(r, f"NonceCache {nm}")
+        if vac:
+            seen = set()
+            for j in r.json_lines:
+                seen |= set(j.get("falsified", []))
+            if seen != set(CLAUSES):
+                raise MachineryError(f"vacuity guard: without the lock TLC falsified only {sorted(seen)} of {CLAUSES}")
+            ctx.extra["clauses_falsified_without_lock"] = sorted(seen)
+    graphs = results[len(mcs):]
+    T["tlc_mc_and_dumps"] = round(time.time() - t0, 1)
 
     # ---------------- 2. Level A: TLC paths forced onto the real object
-    # (nthreads, nnonces, cap, ttl, maxclock, maxops, mode)   mode: "all" | "cover"
-    if quick:
-        dumps = [(2, 2, 1, 2, 2, 1, "all"), (2, 2, 2, 2, 3, 2, "cover"), (2, 2, 1, 1, 2, 2, "cover"),
-                 (3, 2, 1, 2, 2, 1, "cover")]
-        n_random = 120
-    else:
-        dumps = [(2, 2, 1, 2, 2, 1, "all"), (2, 2, 2, 2, 2, 1, "all"), (3, 2, 1, 2, 2, 1, "all"),
-                 (3, 2, 2, 1, 1, 1, "all"), (2, 2, 1, 1, 2, 2, "all"), (2, 2, 2, 2, 3, 2, "cover"),
-                 (2, 3, 1, 2, 3, 2, "cover"), (2, 3, 2, 2, 3, 2, "cover"), (2, 3, 3, 2, 3, 2, "cover"),
-                 (2, 3, 4, 2, 3, 2, "cover"), (3, 3, 2, 2, 2, 1, "cover")]
-        n_random = 1500
-    groups: dict[tuple, dict] = {}       # (threads, nonces, cap, ttl) -> {"traces": [...], "meta": [...]}
+    t1 = time.time()
+    traces: list[dict] = []          # {"cap","ttl","ev"}
+    metas: list[dict] = []
     complete_all = True
     path_stats = []
-    for (nt, nn, cap, ttl, mc_, mo, mode) in dumps:
-        consts = _consts(nt, nn, cap, ttl, mc_, mo)
-        cfg = render_cfg(constants=consts, invariants=CLAUSES)
-        r, g = dump_graph(wd, "NonceCache", cfg, workers=4, name=f"g{nt}{nn}{cap}{ttl}{mc_}{mo}")
-        ctx.add_tlc(f"graph-{nt}thr-{nn}n-cap{cap}-ttl{ttl}-clk{mc_}-ops{mo}", r)
+    for d, (r, g) in zip(dumps, graphs):
+        nt, nn, caps, ttls, mc_, mo, mode = d
+        ctx.add_tlc(f"graph-{nt}thr-{nn}n-caps{list(caps)}-ttls{list(ttls)}-clk{mc_}-ops{mo}", r)
         require_ok(r, "NonceCache graph dump")
         if mode == "all":
-            paths, comp = g.all_paths(max_len=64, limit=60000)
+            paths, comp = g.all_paths(max_len=64, limit=120000)
             complete_all = complete_all and comp
-        else:
-            paths = g.edge_cover_paths(ctx.rng, key=_edge_key(cap))
+        elif mode == "cover":
+            paths = g.edge_cover_paths(ctx.rng, key=_edge_key())
             paths += g.random_paths(ctx.rng, n_random, 64)
+        else:                                   # graph too large to classify every edge: random walks only
+            paths = g.random_paths(ctx.rng, 2 * n_random, 64)
         threads = [f"t{i + 1}" for i in range(nt)]
-        gk = (nt, nn, cap, ttl)
-        grp = groups.setdefault(gk, {"traces": [], "meta": []})
         nd = 0
+        first = len(traces)
         for nodes, labs in paths:
+            s0 = g.state(nodes[0])
+            cap, ttl = s0["cap"], s0["ttl"]
             beh = g.path_to_behaviour(nodes, labs)
-            trace, drift, _ = replay_path(cap, ttl, threads, beh)
-            ctx.case(("A", cap, ttl, _tkey(trace)))
+            ev, drift, executed = replay_path(cap, ttl, threads, beh)
+            ctx.case(("A", cap, ttl, _tkey(ev)))
             if drift is not None:
                 nd += 1
                 ctx.drift.append({"level": "A", "config": [nt, nn, cap, ttl, mc_, mo], "schedule": labs, **drift})
-            grp["traces"].append(trace)
-            grp["meta"].append({"level": "A", "cap": cap, "ttl": ttl, "threads": nt, "schedule": labs,
-                                "py_drift": drift is not None})
-        path_stats.append({"config": [nt, nn, cap, ttl, mc_, mo], "mode": mode, "graph_states": r.distinct,
-                           "graph_edges": g.n_edges, "paths_replayed": len(paths), "drift": nd})
+            traces.append({"cap": cap, "ttl": ttl, "ev": ev})
+            metas.append({"level": "A", "threads": nt, "schedule": labs, "executed": executed,
+                          "py_drift": drift is not None})
+            if drift is not None and "schedule control unavailable" in str(drift.get("what", "")):
+                break                           # every further path would only repeat this
+        path_stats.append({"threads": nt, "nonces": nn, "caps": list(caps), "ttls": list(ttls), "maxclock": mc_,
+                           "maxops": mo, "mode": mode, "graph_states": r.distinct, "graph_edges": g.n_edges,
+                           "paths_replayed": len(paths), "drift": nd})
         if len(ctx.samples) < 2 and paths:
-            ctx.sample({"level": "A", "config": {"threads": nt, "nonces": nn, "cap": cap, "ttl": ttl},
-                        "tlc_path": paths[0][1], "real_trace": grp["traces"][-len(paths)]})
+            ctx.sample({"level": "A", "threads": nt, "tlc_path": paths[0][1], "real_trace": traces[first]})
     ctx.extra["level_A"] = path_stats
     ctx.extra["level_A_all_paths_complete"] = complete_all
+    T["level_A_replay"] = round(time.time() - t1, 1)
 
     # ---------------- 3. Level B: every real schedule of small scenarios, yields inside the critical section
+    t2 = time.time()
     scns = []
-    for cap in ((1, 2) if quick else (1, 2, 3)):
-        for progs in ({"t1": ["a"], "t2": ["a"]}, {"t1": ["a"], "t2": ["b"]}):
-            for prefill in ([], [("c", 0)], [("a", 0)]):
-                scns.append({"cap": cap, "ttl": 2, "progs": progs, "prefill": prefill, "ticks": 1, "pb": None})
-        scns.append({"cap": cap, "ttl": 1, "progs": {"t1": ["a", "b"], "t2": ["a"]}, "prefill": [("c", 0)],
-                     "ticks": 1, "pb": 2})
-    if not quick:
+
+    def scn(cap, progs, prefill, ttl=2, ticks=0, pb=None):
+        scns.append({"cap": cap, "ttl": ttl, "progs": progs, "prefill": prefill, "ticks": ticks, "pb": pb})
+
+    AA, AB = {"t1": ["a"], "t2": ["a"]}, {"t1": ["a"], "t2": ["b"]}
+    if quick:
+        scn(1, AA, [])
+        scn(1, AA, [("c", 0)])
+        scn(1, AB, [("c", 0)])
+        scn(1, AA, [("a", 0)])
+        scn(2, AA, [("c", 0)])
+        scn(2, AB, [("c", 0), ("a", 0)])
+        scn(1, AA, [("c", 0)], ticks=1, pb=1)
+        scn(2, AB, [("c", 0)], ttl=1, ticks=1, pb=1)
+    else:
+        for cap in (1, 2, 3):
+            for progs in (AA, AB):
+                for prefill in ([], [("c", 0)], [("a", 0)], [("c", 0), ("a", 0)]):
+                    scn(cap, progs, prefill)
+                    scn(cap, progs, prefill, ttl=1, ticks=1, pb=2)
         for cap in (1, 2):
-            scns.append({"cap": cap, "ttl": 2, "progs": {"t1": ["a"], "t2": ["a"], "t3": ["b"]},
-                         "prefill": [("c", 0)], "ticks": 1, "pb": 2})
-            scns.append({"cap": cap, "ttl": 2, "progs": {"t1": ["a", "a"], "t2": ["b", "a"]}, "prefill": [],
-                         "ticks": 2, "pb": 2})
-            scns.append({"cap": cap, "ttl": 2, "progs": {"t1": ["a"], "t2": ["a"]}, "prefill": [("c", 0), ("b", 1)],
-                         "ticks": 2, "pb": None})
+            scn(cap, {"t1": ["a", "b"], "t2": ["a"]}, [("c", 0)], ttl=1, ticks=1, pb=2)
+            scn(cap, {"t1": ["a"], "t2": ["a"], "t3": ["b"]}, [("c", 0)], pb=2)
+            scn(cap, {"t1": ["a", "a"], "t2": ["b", "a"]}, [], ticks=1, pb=2)
+            scn(cap, AA, [("c", 0), ("b", 1)], ticks=2, pb=1)
     b_stats = []
     b_complete = True
+    probe_w = World(1, 1, ["t1"])
+    probe_w.finish()
+    if not probe_w.shimmed:
+        # the cache's lock is not created through vgi_rpc.http._replay.threading any more: a thread parked inside
+        # the critical section would hold a real lock and block the others for good -- no schedule control
+        ctx.drift.append({"level": "B", "what": "NonceCache lock is not a scheduler shim lock; real-schedule "
+                          "exploration skipped"})
+        scns = []
+        b_complete = False
     for scn in scns:
         outs, comp, nexec = explore(lambda p, scn=scn: run_real_schedule(scn, p),
-                                    limit=400 if quick else 6000, preemption_bound=scn["pb"])
+                                    limit=300 if quick else 1000, preemption_bound=scn["pb"])
         b_complete = b_complete and comp
         thr = sorted(scn["progs"])
-        gk = ("B", tuple(["t0"] + thr), scn["cap"], scn["ttl"])
-        grp = groups.setdefault(gk, {"traces": [], "meta": []})
         nstuck = 0
         for o in outs:
             ctx.case(("B", scn["cap"], scn["ttl"], _tkey(o["trace"])))
-            if o["stuck"] or o["errors"] or o["notes"] or not o["shimmed"]:
+            anomaly = bool(o["stuck"] or o["errors"] or o["notes"] or not o["shimmed"])
+            if anomaly:
                 nstuck += 1
                 ctx.drift.append({"level": "B", "scenario": _scn_json(scn), "schedule": o["schedule"],
                                   "stuck": o["stuck"], "errors": o["errors"], "notes": o["notes"],
                                   "shimmed": o["shimmed"]})
-            grp["traces"].append(o["trace"])
-            grp["meta"].append({"level": "B", "cap": scn["cap"], "ttl": scn["ttl"], "threads": len(thr),
-                                "scenario": _scn_json(scn), "schedule": o["schedule"],
-                                "py_drift": bool(o["stuck"] or o["errors"])})
+            traces.append({"cap": scn["cap"], "ttl": scn["ttl"], "ev": o["trace"]})
+            metas.append({"level": "B", "threads": len(thr), "scenario": _scn_json(scn), "schedule": o["schedule"],
+                          "executed": o["schedule"], "py_drift": anomaly})
         b_stats.append({"scenario": _scn_json(scn), "real_schedules": nexec, "exhausted": comp, "anomalies": nstuck})
         if outs and len(ctx.samples) < 4:
             ctx.sample({"level": "B", "scenario": _scn_json(scn), "schedule": outs[-1]["schedule"],
                         "real_trace": outs[-1]["trace"]})
     ctx.extra["level_B"] = b_stats
     ctx.exhaustive = complete_all and b_complete
+    T["level_B_dfs"] = round(time.time() - t2, 1)
 
-    # ---------------- 4. TLC judges every recorded trace
+    # ---------------- 4. TLC judges every recorded trace (identical traces are judged once)
+    t3 = time.time()
+    uniq: dict[tuple, int] = {}
+    rep: list[int] = []
+    for i, tr in enumerate(traces):
+        k = (tr["cap"], tr["ttl"], _tkey(tr["ev"]))
+        if k not in uniq:
+            uniq[k] = len(rep)
+            rep.append(i)
+    verdicts, bad, inv_hits = judge_traces(ctx, wd, "NonceCacheTrace", [traces[i] for i in rep], JUDGE_CONSTS,
+                                           invariants=[f"Inv_{c}" for c in CLAUSES], name="judge",
+                                           chunk=4000 if quick else 12000)
+    for clause, cex in inv_hits:
+        cl = clause.replace("Inv_", "")
+        ctx.violation(cl, {"clause": cl, "via": "model-invariant-on-conforming-trace"}, {"counterexample": cex[-6:]})
     n_conform = 0
-    for gk, grp in groups.items():
-        if gk[0] == "B":
-            _, thr, cap, ttl = gk
-            nonces = ["a", "b", "c"]
-        else:
-            nt, nn, cap, ttl = gk
-            thr = [f"t{i + 1}" for i in range(nt)]
-            nonces = list("abc"[:nn])
-        consts = {"Threads": _strset(thr), "Nonces": _strset(nonces), "Cap": cap, "Ttl": ttl, "MaxClock": 99,
-                  "MaxOps": 99, "Grain": "lock", "UseLock": True}
-        # identical traces are judged once
-        uniq: dict[str, int] = {}
-        rep: list[int] = []
-        for i, tr in enumerate(grp["traces"]):
-            k = _tkey(tr)
-            if k not in uniq:
-                uniq[k] = len(rep)
-                rep.append(i)
-        verdicts, bad, inv_hits = judge_traces(ctx, wd, "NonceCacheTrace", [grp["traces"][i] for i in rep], consts,
-                                               invariants=CLAUSES, name=f"judge-{'-'.join(map(str, gk[-2:]))}")
-        for clause, cex in inv_hits:
-            ctx.violation(clause, {"clause": clause, "via": "model-invariant-on-conforming-trace", "cap": cap},
-                          {"counterexample": cex[-6:]})
-        for j, i in enumerate(rep):
-            meta = grp["meta"][i]
-            if verdicts[j] is None:
-                n_conform += 1
-                ctx.traces_validated += 1
-            elif not meta["py_drift"]:
-                ctx.drift.append({"level": meta["level"], "what": "TLC: recorded trace is not a behaviour of the "
-                                  "lock-grain model", "matched_events": verdicts[j], "trace": grp["traces"][i],
-                                  "schedule": meta["schedule"]})
-            for clause in bad.get(j, []):
-                ctx.violation(clause, {"clause": clause, "level": meta["level"], "cap": cap, "ttl": ttl,
-                                       "threads": meta["threads"]},
-                              {"trace": grp["traces"][i], "schedule": meta["schedule"],
-                               "scenario": meta.get("scenario"), "conforms_to_model": verdicts[j] is None})
+    for j, i in enumerate(rep):
+        meta, tr = metas[i], traces[i]
+        if verdicts[j] is None:
+            n_conform += 1
+            ctx.traces_validated += 1
+        elif not meta["py_drift"]:
+            ctx.drift.append({"level": meta["level"], "what": "TLC: recorded trace is not a behaviour of the "
+                              "lock-grain model", "matched_events": verdicts[j], "trace": tr,
+                              "schedule": meta["schedule"]})
+        for clause in bad.get(j, []):
+            ctx.violation(clause, {"clause": clause, "level": meta["level"], "cap": tr["cap"], "ttl": tr["ttl"],
+                                   "threads": meta["threads"]},
+                          {"trace": tr, "schedule": meta["schedule"], "executed": meta["executed"],
+                           "scenario": meta.get("scenario"), "conforms_to_model": verdicts[j] is None})
+    T["tlc_judge"] = round(time.time() - t3, 1)
+    ctx.extra["distinct_traces_judged"] = len(rep)
     ctx.extra["traces_conforming"] = n_conform
-    ctx.extra["drift"] = bool(ctx.drift)
+    ctx.extra["drift_seen"] = bool(ctx.drift)
+    ctx.extra["timing_s"] = T
     ctx.extra["note_2skew"] = ("a future-dated proof stays MAC-valid for up to 2*skew; the cache window is skew from "
                                "the clock read at acceptance (DESIGN 7a) -- noted, not asserted")
 
